@@ -314,6 +314,16 @@ class iindex(dict):
         """
         values = numpy.asarray(values)
 
+        # Coordinates and the common value are plain Python values; callers
+        # often hand in NumPy scalars (e.g. counts from numpy.unique).
+        if isinstance(common, numpy.generic):
+            common = common.item()
+        if counts is not None:
+            counts = {
+                k.item() if isinstance(k, numpy.generic) else k: c
+                for k, c in counts.items()
+            }
+
         if counts is None:
             try:
                 if len(values) == 0:
